@@ -171,15 +171,18 @@ def execute_cli(cases, timeout=10, fuel=8000, jobs=None):
         list(ex.map(lambda c: _run_one_cli(c, timeout), cases))
     t1 = time.time()
     reqs = []
-    for c in cases:
+    withmodel = [c for c in cases if not c.label.startswith('impl-only')]
+    for c in withmodel:
         spec = 'missing'
         if c.script is not None and c.files.get(c.script) is not None:
             spec = 'ok:' + hx(c.files[c.script])
         reqs.append('cli\t' + hx(''.join('\x01' + a for a in c.args)) + '\t' + hx(c.stdin) + '\t' + spec)
+    # 'impl-only' cases are beyond the model driver's reach (millions of iterations): decided by their oracle alone
     mod = run_model(reqs, fuel=fuel)
-    for c, m in zip(cases, mod):
-        # 'impl-only' cases are beyond the model's reach (millions of iterations): decided by their oracle alone
-        c.model = None if c.label.startswith('impl-only') else m
+    for c in cases:
+        c.model = None
+    for c, m in zip(withmodel, mod):
+        c.model = m
     return {'impl_s': round(t1 - t0, 1), 'model_s': round(time.time() - t1, 1)}
 
 def cli_canon_err(err):
@@ -257,3 +260,57 @@ def long_loop_cases():
         (f'{V} i = 0;\n{W} (1) {{ i = i + 1; {I} (i == 2500000) {B}; }}\n{P} i;\n', '2.5e+06\n'),
     ]
     return [CliCase('impl-only-long-loop', ['p.bn'], {'p.bn': src.encode()}, b'', 'p.bn', note={'out': out, 'err': '', 'status': 0}) for src, out in progs]
+
+def go_v(x):
+    """the text fmt's %v gives a float64: shortest round-trip digits, exponent form when the decimal exponent is < -4 or >= 6"""
+    from decimal import Decimal
+    x = float(x)
+    if x != x: return 'NaN'
+    if x in (float('inf'), float('-inf')): return '+Inf' if x > 0 else '-Inf'
+    if x == 0: return '-0' if str(x).startswith('-') else '0'
+    sign, digits, exp = Decimal(repr(x)).as_tuple()
+    digits = list(digits)
+    while len(digits) > 1 and digits[-1] == 0:
+        digits.pop(); exp += 1
+    nd = len(digits); dp = nd + exp; e = dp - 1
+    ds = ''.join(map(str, digits))
+    if e < -4 or e >= 6:
+        body = ds[0] + ('.' + ds[1:] if nd > 1 else '') + ('e+' if e >= 0 else 'e-') + ('%02d' % abs(e))
+    elif dp <= 0:
+        body = '0.' + '0' * (-dp) + ds
+    elif dp >= nd:
+        body = ds + '0' * (dp - nd)
+    else:
+        body = ds[:dp] + '.' + ds[dp:]
+    return ('-' if sign else '') + body
+
+def volume_cases(kinds, tier='quick'):
+    """implementation-alone programs whose only distinction is VOLUME (hundreds of thousands of calls, scope entries,
+    loop rounds, elements): the model driver cannot run that long, but what the property prescribes is a closed form"""
+    from .core import KW, NAT
+    W, F, P, V, I, B, C, FN, R, E = KW['while'], KW['for'], KW['print'], KW['var'], KW['if'], KW['break'], KW['continue'], KW['fun'], KW['return'], KW['else']
+    LEN, APP = NAT['len'], NAT['append']
+    big = tier == 'thorough'
+    out = []
+    def add(kind, name, src, lines):
+        if kind in kinds:
+            out.append(CliCase('impl-only-volume', ['p.bn'], {'p.bn': src.encode()}, b'', 'p.bn',
+                               note={'out': ''.join(l + '\n' for l in lines), 'err': '', 'status': 0, 'name': name}))
+    for n in ([12000, 150000] if not big else [9999, 10000, 10001, 32768, 65537, 150000, 1100000]):
+        add('calls', f'calls-noreturn-{n}', f'{V} c = 0;\n{FN} bump() {{ c = c + 1; }}\n{F} ({V} i = 0; i < {n}; i = i + 1) {{ bump(); }}\n{P} c;\n{FN} id(x) {{ {R} x; }}\n{P} id(7);\n{P} bump();\n{P} c;\n',
+            [go_v(n), '7', 'nil', go_v(n + 1)])
+        add('calls', f'calls-return-{n}', f'{FN} g(x) {{ {R} x + 1; }}\n{V} v = 0;\n{F} ({V} i = 0; i < {n}; i = i + 1) {{ v = g(v); }}\n{P} v;\n{P} g(1);\n', [go_v(n), '2'])
+        add('calls', f'calls-return-in-loop-{n}', f'{FN} g(x) {{ {W} ({KW["true"]}) {{ {I} (x > 0) {{ {R} x; }} x = x + 1; }} }}\n{V} v = 0;\n{F} ({V} i = 0; i < {n}; i = i + 1) {{ v = v + g(1); }}\n{P} v;\n', [go_v(n)])
+        add('calls', f'calls-native-{n}', f'{V} v = 0;\n{F} ({V} i = 0; i < {n}; i = i + 1) {{ v = v + {LEN}([i, i]); }}\n{P} v;\n{P} {LEN}([7]);\n', [go_v(2 * n), '1'])
+        add('calls', f'closures-{n}', f'{FN} mk(k) {{ {FN} get() {{ {R} k; }} {R} get; }}\n{V} s = 0;\n{F} ({V} i = 0; i < {n}; i = i + 1) {{ {V} h = mk(i); s = s + h() - i + 1; }}\n{P} s;\n', [go_v(n)])
+        add('scopes', f'blocks-{n}', f'{V} x = 1;\n{V} s = 0;\n{F} ({V} i = 0; i < {n}; i = i + 1) {{ {{ {V} x = i; {{ {V} x = 2; s = s + x; }} }} }}\n{P} s;\n{P} x;\n', [go_v(2 * n), '1'])
+        add('scopes', f'shadow-in-call-{n}', f'{V} x = 5;\n{FN} f(x) {{ {V} y = x; x = x + 1; {R} y; }}\n{V} s = 0;\n{F} ({V} i = 0; i < {n}; i = i + 1) {{ s = s + f(1); }}\n{P} s;\n{P} x;\n', [go_v(n), '5'])
+        add('loops', f'nested-loops-{n}', f'{V} s = 0;\n{F} ({V} i = 0; i < {n // 100}; i = i + 1) {{ {F} ({V} j = 0; j < 1000; j = j + 1) {{ {I} (j >= 100) {B}; {I} (j % 2 == 1) {C}; s = s + 1; }} }}\n{P} s;\n', [go_v((n // 100) * 50)])
+        add('loops', f'loop-in-function-{n}', f'{FN} f(n) {{ {V} k = 0; {W} ({KW["true"]}) {{ k = k + 1; {I} (k == n) {{ {R} k; }} }} }}\n{P} f({n});\n{P} "after";\n', [go_v(n), 'after'])
+    for n in ([20000, 60000] if not big else [9999, 10001, 20000, 60000, 100000]):
+        add('calls', f'recursion-{n}', f'{FN} sum(n) {{ {I} (n == 0) {{ {R} 0; }} {R} n + sum(n - 1); }}\n{P} sum({n});\n{P} sum(3);\n', [go_v(n * (n + 1) // 2), '6'])
+        add('calls', f'recursion-noreturn-{n}', f'{V} c = 0;\n{FN} down(n) {{ {I} (n > 0) {{ c = c + 1; down(n - 1); }} }}\ndown({n});\n{P} c;\ndown(2);\n{P} c;\n', [go_v(n), go_v(n + 2)])
+    for n in ([20000] if not big else [4096, 20000, 70000]):
+        add('data', f'array-grown-{n}', f'{V} a = [];\n{F} ({V} i = 0; i < {n}; i = i + 1) {{ a = {APP}(a, i); }}\n{P} {LEN}(a);\n{P} a[{n - 1}];\n{P} a[0];\n', [go_v(n), go_v(n - 1), '0'])
+        add('data', f'string-grown-{n}', f'{V} s = "";\n{F} ({V} i = 0; i < {n}; i = i + 1) {{ s = s + "ab"; }}\n{P} s == s + "";\n{P} s == s + "a";\n', ['true', 'false'])
+    return out
